@@ -156,8 +156,12 @@ def _tuple_split(stmts, func):
                 continue
         if isinstance(s, ast.Assign) and len(s.targets) == 1 and isinstance(s.targets[0], ast.Tuple) \
                 and isinstance(s.value, ast.Tuple) and len(s.targets[0].elts) == len(s.value.elts) \
-                and all(isinstance(t, ast.Attribute) and isinstance(t.value, ast.Name) for t in s.targets[0].elts) \
-                and all(isinstance(e, (ast.Name, ast.Constant)) for e in s.value.elts):
+                and all((isinstance(t, ast.Attribute) and isinstance(t.value, ast.Name)) or isinstance(t, ast.Name)
+                        for t in s.targets[0].elts) \
+                and any(isinstance(t, ast.Attribute) for t in s.targets[0].elts) \
+                and all(isinstance(e, (ast.Name, ast.Constant)) for e in s.value.elts) \
+                and not any(isinstance(t, ast.Name) and any(isinstance(e, ast.Name) and e.id == t.id for e in s.value.elts[i_ + 1:])
+                            for i_, t in enumerate(s.targets[0].elts)):
             # self.a, self.b = (x, y) with plain local names / constants on the right: attribute stores cannot change them
             for t, e in zip(s.targets[0].elts, s.value.elts):
                 t2 = copy.deepcopy(t)
